@@ -12,6 +12,7 @@ package c18
 
 import (
 	stdjson "encoding/json"
+	"errors"
 	"fmt"
 	"math"
 	"math/rand"
@@ -21,6 +22,8 @@ import (
 	"sort"
 	"strconv"
 	"strings"
+	"unicode"
+	"unicode/utf8"
 
 	ucfg "github.com/elastic/go-ucfg"
 	uhjson "github.com/elastic/go-ucfg/hjson"
@@ -48,16 +51,16 @@ func (check) Cases(tier string) int {
 }
 
 func (check) Rule() string {
-	return "one JSON document per case: top-level object (1 in 12: list) of depth <= 4 over a pool of plain keys, odd keys (spaces, unicode, punctuation, YAML look-alikes such as true, ~, #c) and, in 1 document of 8, keys containing '.'; leaves: strings over a wide alphabet (ASCII punctuation, control characters, DEL/C1, NEL, NBSP, LS/PS, BOM, U+FFFE/FFFF, Latin-1, combining marks, CJK, non-BMP) or from a pool of look-alikes (true, null, ~, 1e3, 0x1F, 2001-12-14, '# c', '[1,2]', triple quotes ...), integers within +-2^53, floats (fractions, tiny, huge, integral, -0), booleans, nulls, {} and []; lists of one leaf kind, of objects, or mixed; half of the object documents carry top-level string variables (plain words, or wide-alphabet text for pure references) that other strings reference as ${name} -- pure, or spliced behind a literal prefix, one or two names per string -- plus $$ escapes, $${x} and lone $; rendered compact / spaced / indented 1-8 / loose (random blanks) with sorted or shuffled keys, floats in g/e/f/f.0 form, and only the escapes all three grammars share (backslash-quote, double backslash, \\b \\f \\n \\r \\t, \\uXXXX for BMP). The document is used only if yaml.v2, encoding/json and hjson-go decode it to the same data as the generating tree (else prefilter_rejected). It is loaded by the three NewConfig and the three NewConfigWithFile functions under none / PathSep / VarExp / PathSep+VarExp / VarExp+PathSep (PathSep skipped when a key contains '.'), observed by Unpack into map, slice and two types fitted to the document with reflect.StructOf (struct / *struct with config tags, map[string]T, []T, [N]T, int64 int int32 uint64 uint float64 string bool, pointers to them, interface{}), and compared three-way, with the tree (VarExp: with the expanded tree), and file against memory. Missing files must give an error and no config. Then two faults (17 kinds: conversions, overflow, negative into unsigned, object/string clashes, min/max/positive/nonzero/required validators) are grafted at random paths of 1-5 keys/indices and the six loaders' Unpack errors must name the quoted dotted path; the file loaders' errors must contain the file name, the in-memory ones no source. Non-trivial = at least one nested container and at least 3 leaves; distinct = distinct document text."
+	return "one JSON document per case: top-level object (1 in 12: list) of depth <= 4 over a pool of plain keys, odd keys (spaces, unicode, punctuation, YAML look-alikes such as true, ~, #c) and, in 1 document of 8, keys containing '.'; leaves: strings over a wide alphabet (ASCII punctuation, control characters, DEL/C1, NEL, NBSP, LS/PS, BOM, U+FFFE/FFFF, Latin-1, combining marks, CJK, non-BMP) or from a pool of look-alikes (true, null, ~, 1e3, 0x1F, 2001-12-14, '# c', '[1,2]', triple quotes ...), integers within +-2^53, floats (fractions, tiny, huge, integral, -0), booleans, nulls, {} and []; lists of one leaf kind, of objects, or mixed; half of the object documents carry top-level string variables (plain words, or wide-alphabet text for pure references) that other strings reference as ${name} -- pure, or spliced behind a literal prefix, one or two names per string -- plus $$ escapes, $${x} and lone $; rendered compact / spaced / indented 1-8 / loose (random blanks) with sorted or shuffled keys, floats in g/e/f/f.0 form, and only the escapes all three grammars share (backslash-quote, double backslash, \\b \\f \\n \\r \\t, \\uXXXX for BMP). The document is used only if yaml.v2, encoding/json and hjson-go decode it to the same data as the generating tree (else prefilter_rejected). It is loaded by the three NewConfig and the three NewConfigWithFile functions under none / PathSep / VarExp / PathSep+VarExp / VarExp+PathSep (PathSep skipped when a key contains '.'), observed by Unpack into map, slice and two types fitted to the document with reflect.StructOf (struct / *struct with config tags, map[string]T, []T, [N]T, int64 int int32 uint64 uint float64 string bool, pointers to them, interface{}), and compared three-way, with the tree (VarExp: with the expanded tree), and file against memory. Where the document nests objects, a second spelling with dictionary (and some list) edges folded at random depth into dotted keys (server.tls.port, l.0, l.1) is loaded too under every PathSep combination and must mean exactly the same. Missing files must give an error and no config. Then two faults (23 kinds: conversions, overflow, negative into unsigned, min/max/positive/nonzero/required validators, and faults reported at containers -- object or list for a primitive, wrong array length, a failing struct Validate(), nonzero/required on empty lists and objects, a required field whose key is absent below an object, a String getter for an absent key through Child handles) are grafted at random paths of 1-5 keys/indices; each is loaded once without and once with PathSep, the latter with keys folded preferably along the path so that the containers exist only implicitly; the six loaders' errors must name the full dotted path as a delimited token, the file loaders' errors must contain the file name (or its base name), the in-memory ones must not. Non-trivial = at least one nested container and at least 3 leaves; distinct = distinct document text."
 }
 
 func (check) Assumptions() []string {
 	return []string{
 		"the three raw decoders are trusted: a document they do not decode identically (up to number type and map key type) and equal to the generating tree is discarded and counted (prefilter_rejected)",
 		"canonical comparison: numbers by value (all integers within +-2^53, so float64 is exact), nil == {} == [] == absent key inside dictionaries; typed targets compared three-way exactly (nil/empty kept apart, numbers inside interface{} by value) and with the tree leniently where the tree holds null or nothing",
-		"keys are never numeric and never empty; keys with '.' only without PathSep; each ${name} names a top-level plain string of the same document and every variable is referenced at most once per document (a second evaluation of one name inside one Unpack call is C08's open defect); splices are built so that their expansion is returned unchanged as a string by parse.Value",
+		"keys are never numeric and never empty; literal keys with '.' only without PathSep; folded keys (only with PathSep) never overlap: an edge is folded as a whole, so no key is spelled both nested and dotted (C09 covers overlaps); each ${name} names a top-level plain string of the same document and every variable is referenced at most once per document (a second evaluation of one name inside one Unpack call is C08's open defect); splices are built so that their expansion is returned unchanged as a string by parse.Value",
 		"typed targets never put pointers inside slices or maps and never point to maps, slices or arrays (C06/C07 report those shapes); numbers are never unpacked into strings, floats never into integers",
-		"errors are inspected only for containing the file name and the quoted dotted path, not for wording, reason or type (C14); whether a fault is raised at all is C03/C04's business: if no front-end raises it the case is only counted (fault_not_raised_by_any_frontend)",
+		"errors are inspected only for containing the file name (full or base name) and the dotted path as a delimited token (neighbours are not letters, digits, _ . -), independent of wording, reason or type (C14); an error naming another known path of the document instead is error-names-wrong-path, none error-lacks-path; whether a fault is raised at all is C03/C04's business: if no front-end raises it the case is only counted (fault_not_raised_by_any_frontend)",
 		"list elements before the faulty one are null or conform to the target, because Unpack reports the first error in list order",
 		"not demanded: integers beyond +-2^53 (an integral float is never printed as a plain integer literal beyond 2^53), decoder syntax errors, YAML-only or HJSON-only syntax, which MetaData wins when the caller passes one to a *WithFile loader",
 	}
@@ -1332,6 +1335,40 @@ func (check) Run(seed int64, tier string, idx int, verbose bool) harness.Result 
 		paths[l.name] = p
 	}
 
+	// the same document with dictionary edges folded into dotted keys, for the
+	// loads with PathSep: there it must mean exactly what the nested text means
+	type variant struct {
+		label string
+		text  []byte
+		paths map[string]string
+	}
+	variants := []variant{{"nested", text, paths}}
+	if !g.hasDot {
+		fo := &folder{r: r, objOdds: 2, listOdds: 3}
+		ftree := fo.fold(tree, nil, false)
+		if fo.folded > 0 {
+			ftext := render(r, res, ftree)
+			if why := prefilter(ftext, ftree); why != "" {
+				res.Ev("prefilter_rejected_folded_document", 1)
+				reason, _, _ := strings.Cut(why, "|")
+				res.SetAdd("prefilter_reason", reason)
+			} else {
+				fpaths := map[string]string{}
+				for _, l := range loaders {
+					p := filepath.Join(dir, "folded-"+stem+"."+l.ext)
+					if err := os.WriteFile(p, ftext, 0o644); err != nil {
+						res.Inconc("cannot write %s: %v", p, err)
+						return res.Done()
+					}
+					fpaths[l.name] = p
+				}
+				variants = append(variants, variant{"folded-keys", ftext, fpaths})
+				res.Ev("documents_with_folded_keys", 1)
+				res.Ev("folded_edges", int64(fo.folded))
+			}
+		}
+	}
+
 	leaves, nested := shape(tree, 0)
 	if nested && leaves >= 3 {
 		res.Key(string(text))
@@ -1356,82 +1393,89 @@ func (check) Run(seed int64, tier string, idx int, verbose bool) harness.Result 
 		if cb.varExp && g.hasRef {
 			res.Ev("varexp_documents_with_references", 1)
 		}
-		ctx := fmt.Sprintf("options=%s document=%q", cb.name, clip(string(text)))
 		wantTop := want.CanonTop()
+		for _, vr := range variants {
+			if vr.label != "nested" && !cb.pathSep {
+				continue
+			}
+			text, paths := vr.text, vr.paths
+			res.SetAdd("spelling", vr.label)
+			ctx := fmt.Sprintf("options=%s keys=%s document=%q", cb.name, vr.label, clip(string(text)))
 
-		var mem [3]observed
-		okAll := true
-		for i, l := range loaders {
-			l := l
-			c, err, ok := load(res, l.name+".NewConfig", func() (*ucfg.Config, error) { return l.mem(text, cb.opts...) }, ctx)
-			if !ok {
-				okAll = false
-				continue
-			}
-			if err != nil || c == nil {
-				res.Violate("loader-error:"+l.name, "%s.NewConfig returned (%v, %v) for a document all three raw decoders accept; %s", l.name, c, err, ctx)
-				okAll = false
-				continue
-			}
-			mem[i] = observe(res, c, types, cb.opts, l.name+".NewConfig", ctx)
-			okAll = okAll && mem[i].ok
-		}
-		for k := 0; okAll && k <= len(types); k++ {
-			// three-way, then against the generating tree
-			y, j, h := mem[0].views[k], mem[1].views[k], mem[2].views[k]
-			nerr := 0
-			for _, v := range []view{y, j, h} {
-				if v.err != nil {
-					nerr++
+			var mem [3]observed
+			okAll := true
+			for i, l := range loaders {
+				l := l
+				c, err, ok := load(res, l.name+".NewConfig", func() (*ucfg.Config, error) { return l.mem(text, cb.opts...) }, ctx)
+				if !ok {
+					okAll = false
+					continue
 				}
+				if err != nil || c == nil {
+					res.Violate("loader-error:"+l.name, "%s.NewConfig returned (%v, %v) for a document all three raw decoders accept; %s", l.name, c, err, ctx)
+					okAll = false
+					continue
+				}
+				mem[i] = observe(res, c, types, cb.opts, l.name+".NewConfig", ctx)
+				okAll = okAll && mem[i].ok
 			}
-			switch {
-			case nerr == 3:
-				res.Violate(viewName(k)+"-unpack-error:all-loaders", "%s fails for all three front-ends: yaml=%v json=%v hjson=%v; %s", viewDesc(k), y.err, j.err, h.err, ctx)
-			case nerr > 0:
-				res.Violate("frontends-disagree:"+viewName(k)+"-error", "%s: yaml err=%v json err=%v hjson err=%v; %s", viewDesc(k), y.err, j.err, h.err, ctx)
-			case y.s != j.s || j.s != h.s:
-				res.Violate("frontends-disagree:"+viewName(k), "%s: yaml=%s json=%s hjson=%s; %s", viewDesc(k), y.s, j.s, h.s, ctx)
-			case k == 0:
-				if y.s != wantTop {
-					sig := "all-frontends-differ-from-document:generic"
-					if cb.varExp && g.hasRef {
-						sig += "-varexp"
+			for k := 0; okAll && k <= len(types); k++ {
+				// three-way, then against the generating tree
+				y, j, h := mem[0].views[k], mem[1].views[k], mem[2].views[k]
+				nerr := 0
+				for _, v := range []view{y, j, h} {
+					if v.err != nil {
+						nerr++
 					}
-					res.Violate(sig, "all three give %s, the document says %s; %s", y.s, wantTop, ctx)
 				}
-			default:
-				if d := matchTyped(y.val, want, ""); d != "" {
-					sig := "all-frontends-differ-from-document:typed"
-					if cb.varExp && g.hasRef {
-						sig += "-varexp"
+				switch {
+				case nerr == 3:
+					res.Violate(viewName(k)+"-unpack-error:all-loaders", "%s fails for all three front-ends: yaml=%v json=%v hjson=%v; %s", viewDesc(k), y.err, j.err, h.err, ctx)
+				case nerr > 0:
+					res.Violate("frontends-disagree:"+viewName(k)+"-error", "%s: yaml err=%v json err=%v hjson err=%v; %s", viewDesc(k), y.err, j.err, h.err, ctx)
+				case y.s != j.s || j.s != h.s:
+					res.Violate("frontends-disagree:"+viewName(k), "%s: yaml=%s json=%s hjson=%s; %s", viewDesc(k), y.s, j.s, h.s, ctx)
+				case k == 0:
+					if y.s != wantTop {
+						sig := "all-frontends-differ-from-document:generic"
+						if cb.varExp && g.hasRef {
+							sig += "-varexp"
+						}
+						res.Violate(sig, "all three give %s, the document says %s; %s", y.s, wantTop, ctx)
 					}
-					res.Violate(sig, "%s: %s; value %s; %s", viewDesc(k), d, y.s, ctx)
+				default:
+					if d := matchTyped(y.val, want, ""); d != "" {
+						sig := "all-frontends-differ-from-document:typed"
+						if cb.varExp && g.hasRef {
+							sig += "-varexp"
+						}
+						res.Violate(sig, "%s: %s; value %s; %s", viewDesc(k), d, y.s, ctx)
+					}
 				}
 			}
-		}
 
-		// *WithFile twins
-		for i, l := range loaders {
-			l := l
-			c, err, ok := load(res, l.name+".NewConfigWithFile", func() (*ucfg.Config, error) { return l.file(paths[l.name], cb.opts...) }, ctx)
-			if !ok {
-				continue
-			}
-			if err != nil || c == nil {
-				res.Violate("loader-error:"+l.name+"-withfile", "%s.NewConfigWithFile returned (%v, %v); %s", l.name, c, err, ctx)
-				continue
-			}
-			fo := observe(res, c, types, cb.opts, l.name+".NewConfigWithFile", ctx)
-			if !fo.ok || !mem[i].ok {
-				continue
-			}
-			for k := range fo.views {
-				f, m := fo.views[k], mem[i].views[k]
-				if (f.err != nil) != (m.err != nil) {
-					res.Violate("withfile-differs-from-memory:"+l.name, "%s: file err=%v memory err=%v; %s", viewDesc(k), f.err, m.err, ctx)
-				} else if f.err == nil && f.s != m.s {
-					res.Violate("withfile-differs-from-memory:"+l.name, "%s: file=%s memory=%s; %s", viewDesc(k), f.s, m.s, ctx)
+			// *WithFile twins
+			for i, l := range loaders {
+				l := l
+				c, err, ok := load(res, l.name+".NewConfigWithFile", func() (*ucfg.Config, error) { return l.file(paths[l.name], cb.opts...) }, ctx)
+				if !ok {
+					continue
+				}
+				if err != nil || c == nil {
+					res.Violate("loader-error:"+l.name+"-withfile", "%s.NewConfigWithFile returned (%v, %v); %s", l.name, c, err, ctx)
+					continue
+				}
+				fo := observe(res, c, types, cb.opts, l.name+".NewConfigWithFile", ctx)
+				if !fo.ok || !mem[i].ok {
+					continue
+				}
+				for k := range fo.views {
+					f, m := fo.views[k], mem[i].views[k]
+					if (f.err != nil) != (m.err != nil) {
+						res.Violate("withfile-differs-from-memory:"+l.name, "%s: file err=%v memory err=%v; %s", viewDesc(k), f.err, m.err, ctx)
+					} else if f.err == nil && f.s != m.s {
+						res.Violate("withfile-differs-from-memory:"+l.name, "%s: file=%s memory=%s; %s", viewDesc(k), f.s, m.s, ctx)
+					}
 				}
 			}
 		}
@@ -1462,40 +1506,255 @@ func (check) Run(seed int64, tier string, idx int, verbose bool) harness.Result 
 }
 
 // ---------------------------------------------------------------------------
-// source check: one grafted fault
+// source check: grafted faults
+
+// picky is a target whose Validate method rejects everything but k: "ok"; the
+// error is raised for the object as a whole (a container, not a leaf).
+type picky struct {
+	K string `config:"k"`
+}
+
+func (p picky) Validate() error {
+	if p.K != "ok" {
+		return errors.New("k is not ok")
+	}
+	return nil
+}
 
 type faultKind struct {
-	name    string
-	good    func() *model.Node // a value the target accepts (for the list elements before the fault)
-	val     func() *model.Node
-	leaf    reflect.Type
-	tag     string // validate tag; needs a dictionary key as last step
-	needKey bool
+	name       string
+	class      string             // input class used in the signatures
+	good       func() *model.Node // a value the target accepts (for the list elements before the fault)
+	val        func() *model.Node
+	leaf       reflect.Type
+	tag        string // validate tag; needs a dictionary key as last step
+	needKey    bool
+	strictPred bool // null is not accepted by the target: earlier list elements must conform
+	absent     bool // the last key is removed from its object instead of receiving a value
+	getter     bool // observed through Child(...).String(last) instead of Unpack
+}
+
+func nInt(v int64) func() *model.Node  { return func() *model.Node { return model.P(v) } }
+func nStr(v string) func() *model.Node { return func() *model.Node { return model.P(v) } }
+func nObj(k string, v interface{}) func() *model.Node {
+	return func() *model.Node { return model.Dict().Set(k, model.P(v)) }
+}
+func nList(v ...interface{}) func() *model.Node {
+	return func() *model.Node {
+		n := model.List()
+		for _, e := range v {
+			n.A = append(n.A, model.P(e))
+		}
+		return n
+	}
 }
 
 var faultKinds = []faultKind{
-	{name: "string-into-int", good: func() *model.Node { return model.P(int64(5)) }, val: func() *model.Node { return model.P("notanumber") }, leaf: tInt64},
-	{name: "string-into-bool", good: func() *model.Node { return model.P(true) }, val: func() *model.Node { return model.P("maybe") }, leaf: tBool},
-	{name: "string-into-float", good: func() *model.Node { return model.P(1.5) }, val: func() *model.Node { return model.P("1.2.3") }, leaf: tFloat64},
-	{name: "string-into-uint", good: func() *model.Node { return model.P(int64(7)) }, val: func() *model.Node { return model.P("x y") }, leaf: tUint},
-	{name: "negative-into-uint", good: func() *model.Node { return model.P(int64(7)) }, val: func() *model.Node { return model.P(int64(-7)) }, leaf: tUint64},
-	{name: "overflow-int8", good: func() *model.Node { return model.P(int64(100)) }, val: func() *model.Node { return model.P(int64(300)) }, leaf: tInt8},
-	{name: "object-into-int", good: func() *model.Node { return model.P(int64(5)) }, val: func() *model.Node { return model.Dict().Set("k", model.P(int64(1))) }, leaf: tInt64},
-	{name: "bool-into-int", good: func() *model.Node { return model.P(int64(5)) }, val: func() *model.Node { return model.P(true) }, leaf: tInt64},
-	{name: "string-into-object", good: func() *model.Node { return model.Dict().Set("k", model.P(int64(1))) }, val: func() *model.Node { return model.P("text") }, leaf: reflect.StructOf([]reflect.StructField{{Name: "K", Type: tInt64, Tag: `config:"k"`}})},
-	{name: "validate-min", good: func() *model.Node { return model.P(int64(50)) }, val: func() *model.Node { return model.P(int64(3)) }, leaf: tInt64, tag: "min=10", needKey: true},
-	{name: "validate-max-float", good: func() *model.Node { return model.P(0.5) }, val: func() *model.Node { return model.P(2.5) }, leaf: tFloat64, tag: "max=1", needKey: true},
-	{name: "validate-positive", good: func() *model.Node { return model.P(int64(5)) }, val: func() *model.Node { return model.P(int64(-1)) }, leaf: tInt64, tag: "positive", needKey: true},
-	{name: "validate-nonzero-string", good: func() *model.Node { return model.P("s") }, val: func() *model.Node { return model.P("") }, leaf: tString, tag: "nonzero", needKey: true},
-	{name: "validate-nonzero-list", good: func() *model.Node { return model.List(model.P(int64(1))) }, val: func() *model.Node { return model.List() }, leaf: reflect.SliceOf(tInt64), tag: "nonzero", needKey: true},
-	{name: "validate-required-list", good: func() *model.Node { return model.List(model.P("s")) }, val: func() *model.Node { return model.List() }, leaf: reflect.SliceOf(tString), tag: "required", needKey: true},
-	{name: "validate-nonzero-object", good: func() *model.Node { return model.Dict().Set("k", model.P(int64(1))) }, val: func() *model.Node { return model.Dict() }, leaf: reflect.MapOf(tString, tIface), tag: "nonzero", needKey: true},
-	{name: "validate-required-null", good: func() *model.Node { return model.P("s") }, val: func() *model.Node { return model.Nil() }, leaf: reflect.PtrTo(tString), tag: "required", needKey: true},
+	{name: "string-into-int", class: "conversion", good: nInt(5), val: nStr("notanumber"), leaf: tInt64},
+	{name: "string-into-bool", class: "conversion", good: func() *model.Node { return model.P(true) }, val: nStr("maybe"), leaf: tBool},
+	{name: "string-into-float", class: "conversion", good: func() *model.Node { return model.P(1.5) }, val: nStr("1.2.3"), leaf: tFloat64},
+	{name: "string-into-uint", class: "conversion", good: nInt(7), val: nStr("x y"), leaf: tUint},
+	{name: "negative-into-uint", class: "conversion", good: nInt(7), val: nInt(-7), leaf: tUint64},
+	{name: "overflow-int8", class: "conversion", good: nInt(100), val: nInt(300), leaf: tInt8},
+	{name: "bool-into-int", class: "conversion", good: nInt(5), val: func() *model.Node { return model.P(true) }, leaf: tInt64},
+	{name: "string-into-object", class: "conversion", good: nObj("k", int64(1)), val: nStr("text"), leaf: reflect.StructOf([]reflect.StructField{{Name: "K", Type: tInt64, Tag: `config:"k"`}})},
+	{name: "validate-min", class: "validator", good: nInt(50), val: nInt(3), leaf: tInt64, tag: "min=10", needKey: true},
+	{name: "validate-max-float", class: "validator", good: func() *model.Node { return model.P(0.5) }, val: func() *model.Node { return model.P(2.5) }, leaf: tFloat64, tag: "max=1", needKey: true},
+	{name: "validate-positive", class: "validator", good: nInt(5), val: nInt(-1), leaf: tInt64, tag: "positive", needKey: true},
+	{name: "validate-nonzero-string", class: "validator", good: nStr("s"), val: nStr(""), leaf: tString, tag: "nonzero", needKey: true},
+	{name: "validate-required-null", class: "required-null", good: nStr("s"), val: func() *model.Node { return model.Nil() }, leaf: reflect.PtrTo(tString), tag: "required", needKey: true},
+	// faults reported AT a container (an object or a list as a whole) or about
+	// a key missing below it: with PathSep and folded keys the container
+	// exists only implicitly ("server.tls.port": 1 creates server and server.tls)
+	{name: "validate-nonzero-list", class: "container", good: nList(int64(1)), val: nList(), leaf: reflect.SliceOf(tInt64), tag: "nonzero", needKey: true},
+	{name: "validate-required-list", class: "container", good: nList("s"), val: nList(), leaf: reflect.SliceOf(tString), tag: "required", needKey: true},
+	{name: "validate-nonzero-object", class: "container", good: nObj("k", int64(1)), val: func() *model.Node { return model.Dict() }, leaf: reflect.MapOf(tString, tIface), tag: "nonzero", needKey: true},
+	{name: "object-into-int", class: "container", good: nInt(5), val: nObj("k", int64(1)), leaf: tInt64},
+	{name: "object-into-int", class: "container", good: nInt(5), val: func() *model.Node {
+		return model.Dict().Set("k", model.P(int64(1))).Set("m", model.Dict().Set("n", model.P("s")))
+	}, leaf: tInt64},
+	{name: "object-into-string", class: "container", good: nStr("s"), val: nObj("k", "v"), leaf: tString},
+	{name: "list-into-bool", class: "container", good: func() *model.Node { return model.P(true) }, val: nList(int64(1), int64(2)), leaf: tBool},
+	{name: "array-length", class: "container", good: nList(int64(1), int64(2), int64(3)), val: nList(int64(1), int64(2)), leaf: reflect.ArrayOf(3, tInt64), strictPred: true},
+	{name: "array-length", class: "container", good: nList("a", "b"), val: nList("a", "b", "c", "d"), leaf: reflect.ArrayOf(2, tString), strictPred: true},
+	{name: "struct-validate-fails", class: "container", good: nObj("k", "ok"), val: nObj("k", "bad"), leaf: reflect.TypeOf(picky{}), strictPred: true},
+	{name: "required-key-absent", class: "absent-key", good: nStr("s"), leaf: reflect.PtrTo(tString), tag: "required", needKey: true, absent: true},
+	{name: "required-key-absent", class: "absent-key", good: nInt(1), leaf: reflect.PtrTo(tInt64), tag: "required", needKey: true, absent: true},
+	{name: "getter-key-absent", class: "getter-missing-key", needKey: true, absent: true, getter: true},
+	{name: "getter-key-absent", class: "getter-missing-key", needKey: true, absent: true, getter: true},
 }
 
 type step struct {
 	key   string
 	index bool
+}
+
+func joinSteps(steps []step) string {
+	names := make([]string, len(steps))
+	for i, s := range steps {
+		names[i] = s.key
+	}
+	return strings.Join(names, ".")
+}
+
+// folder folds dictionary edges of a tree: the entries of a folded child
+// object, or the elements of a folded child list, move into the parent under
+// "key.sub" / "key.<index>". Under PathSep(".") the folded document means what
+// the original means; the folded containers exist only implicitly.
+type folder struct {
+	r          *rand.Rand
+	objOdds    int // an object edge off the marked path is folded with probability 1/objOdds
+	listOdds   int // a list edge with 1/listOdds
+	folded     int // edges folded
+	pathFolded int // of those, edges on the marked path
+}
+
+// fold copies n. onPath are the remaining steps of a marked path starting at
+// n (nil: none); edges on it are folded with probability 3/4, the others
+// with 1/objOdds and 1/listOdds.
+func (f *folder) fold(n *model.Node, onPath []step, marked bool) *model.Node {
+	if !n.IsSub() {
+		return n.Copy()
+	}
+	next := func(key string, index bool) ([]step, bool) {
+		if marked && len(onPath) > 0 && onPath[0].key == key && onPath[0].index == index {
+			return onPath[1:], true
+		}
+		return nil, false
+	}
+	if n.HasA {
+		m := model.List()
+		for i, e := range n.A {
+			rest, on := next(strconv.Itoa(i), true)
+			m.A = append(m.A, f.fold(e, rest, on))
+		}
+		return m
+	}
+	m := model.Dict()
+	for _, k := range n.SortedKeys() {
+		rest, on := next(k, false)
+		c := f.fold(n.D[k], rest, on)
+		foldable := k != "" && !strings.Contains(k, ".") && c.IsSub() && (len(c.D) > 0 || len(c.A) > 0) && !(len(c.D) > 0 && len(c.A) > 0)
+		want := false
+		if foldable {
+			switch {
+			case on:
+				want = f.r.Intn(4) > 0
+			case c.HasA:
+				want = f.r.Intn(f.listOdds) == 0
+			default:
+				want = f.r.Intn(f.objOdds) == 0
+			}
+		}
+		if !want {
+			m.D[k] = c
+			continue
+		}
+		f.folded++
+		if on {
+			f.pathFolded++
+		}
+		if c.HasA {
+			for i, e := range c.A {
+				m.D[k+"."+strconv.Itoa(i)] = e
+			}
+		} else {
+			for sk, sc := range c.D {
+				m.D[k+"."+sk] = sc
+			}
+		}
+	}
+	return m
+}
+
+func allPaths(n *model.Node, prefix string, out *[]string) {
+	if !n.IsSub() {
+		return
+	}
+	add := func(k string, c *model.Node) {
+		p := k
+		if prefix != "" {
+			p = prefix + "." + k
+		}
+		*out = append(*out, p)
+		allPaths(c, p, out)
+	}
+	for k, c := range n.D {
+		add(k, c)
+	}
+	for i, c := range n.A {
+		add(strconv.Itoa(i), c)
+	}
+}
+
+func tokenRune(r rune) bool {
+	return r == '_' || r == '.' || r == '-' || unicode.IsLetter(r) || unicode.IsDigit(r)
+}
+
+// namesToken reports whether msg contains tok delimited: the characters
+// directly before and after it are not letters, digits, '_', '.', '-'.
+func namesToken(msg, tok string) bool {
+	if tok == "" {
+		return false
+	}
+	for from := 0; from < len(msg); {
+		i := strings.Index(msg[from:], tok)
+		if i < 0 {
+			return false
+		}
+		i += from
+		before, _ := utf8.DecodeLastRuneInString(msg[:i])
+		after, _ := utf8.DecodeRuneInString(msg[i+len(tok):])
+		if (i == 0 || !tokenRune(before)) && (i+len(tok) == len(msg) || !tokenRune(after)) {
+			return true
+		}
+		_, w := utf8.DecodeRuneInString(msg[i:])
+		from = i + w
+	}
+	return false
+}
+
+// namesFile: the message contains the name given to NewConfigWithFile, or at
+// least its base name.
+func namesFile(msg, file string) bool {
+	return strings.Contains(msg, file) || strings.Contains(msg, filepath.Base(file))
+}
+
+func withoutFile(msg, file string) string {
+	return strings.ReplaceAll(strings.ReplaceAll(msg, file, " "), filepath.Base(file), " ")
+}
+
+// getterErr walks to the object holding the last step with Child handles and
+// asks it for the (missing) last key as a string.
+func getterErr(c *ucfg.Config, steps []step, joined bool, opts []ucfg.Option) (err error, nav bool) {
+	cur := c
+	n := len(steps) - 1
+	if joined && n > 0 {
+		child, e := cur.Child(joinSteps(steps[:n]), -1, opts...)
+		if e != nil {
+			return e, true
+		}
+		cur = child
+	} else {
+		for i := 0; i < n; {
+			name, idx := "", -1
+			if !steps[i].index {
+				name = steps[i].key
+				i++
+			}
+			if i < n && steps[i].index {
+				idx, _ = strconv.Atoi(steps[i].key)
+				i++
+			}
+			child, e := cur.Child(name, idx, opts...)
+			if e != nil {
+				return e, true
+			}
+			cur = child
+		}
+	}
+	_, err = cur.String(steps[n].key, -1, opts...)
+	return err, false
 }
 
 func faultPhase(res *harness.R, r *rand.Rand, g *docGen, tree *model.Node, dir, stem string, verbose bool) {
@@ -1508,6 +1767,7 @@ func faultPhase(res *harness.R, r *rand.Rand, g *docGen, tree *model.Node, dir, 
 	maxLen := 1 + r.Intn(5)
 	cur := ft
 	var set func(*model.Node)
+	var del func()
 	type listStep struct {
 		list  *model.Node
 		index int
@@ -1526,6 +1786,7 @@ func faultPhase(res *harness.R, r *rand.Rand, g *docGen, tree *model.Node, dir, 
 			steps = append(steps, step{strconv.Itoa(i), true})
 			child = cur.A[i]
 			set = func(n *model.Node) { holder.A[i] = n }
+			del = nil
 		} else {
 			var have []string
 			for _, k := range cur.SortedKeys() {
@@ -1549,6 +1810,12 @@ func faultPhase(res *harness.R, r *rand.Rand, g *docGen, tree *model.Node, dir, 
 			steps = append(steps, step{k, false})
 			child = cur.D[k]
 			set = func(n *model.Node) { holder.D[k] = n }
+			del = func() {
+				delete(holder.D, k)
+				if len(holder.D) == 0 {
+					holder.D["zz"] = model.P(int64(1)) // the object stays, only the key is missing
+				}
+			}
 		}
 		if len(steps) < maxLen {
 			if child.IsSub() && r.Intn(5) > 0 {
@@ -1576,10 +1843,14 @@ func faultPhase(res *harness.R, r *rand.Rand, g *docGen, tree *model.Node, dir, 
 			break
 		}
 	}
-	set(fk.val())
+	if fk.absent {
+		del()
+	} else {
+		set(fk.val())
+	}
 	// Unpack walks a list in order and stops at the first error: the elements
-	// before the path must be accepted by the target. null is accepted by every
-	// type without validators; otherwise build a conforming element.
+	// before the path must be accepted by the target. null is accepted by most
+	// types without validators; otherwise build a conforming element.
 	var goodTree func(rest []step) *model.Node
 	goodTree = func(rest []step) *model.Node {
 		if len(rest) == 0 {
@@ -1595,54 +1866,47 @@ func faultPhase(res *harness.R, r *rand.Rand, g *docGen, tree *model.Node, dir, 
 		}
 		return n
 	}
-	for _, ls := range lists {
-		for j := 0; j < ls.index; j++ {
-			if fk.tag == "" && r.Intn(2) == 0 {
-				ls.list.A[j] = model.Nil()
-			} else {
-				ls.list.A[j] = goodTree(steps[ls.depth+1:])
+	if !fk.getter {
+		for _, ls := range lists {
+			for j := 0; j < ls.index; j++ {
+				if fk.tag == "" && !fk.strictPred && r.Intn(2) == 0 {
+					ls.list.A[j] = model.Nil()
+				} else {
+					ls.list.A[j] = goodTree(steps[ls.depth+1:])
+				}
 			}
 		}
 	}
 
 	// typed target along the path only
-	t := fk.leaf
-	var names []string
-	for i := len(steps) - 1; i >= 0; i-- {
-		s := steps[i]
-		if s.index {
-			t = reflect.SliceOf(t)
-		} else {
-			tag := `config:"` + s.key + `"`
-			if i == len(steps)-1 && fk.tag != "" {
-				tag += ` validate:"` + fk.tag + `"`
-			}
-			st := reflect.StructOf([]reflect.StructField{{Name: "F", Type: t, Tag: reflect.StructTag(tag)}})
-			if i > 0 && !steps[i-1].index && r.Intn(4) == 0 {
-				t = reflect.PtrTo(st)
+	var t reflect.Type
+	if !fk.getter {
+		t = fk.leaf
+		for i := len(steps) - 1; i >= 0; i-- {
+			s := steps[i]
+			if s.index {
+				t = reflect.SliceOf(t)
 			} else {
-				t = st
+				tag := `config:"` + s.key + `"`
+				if i == len(steps)-1 && fk.tag != "" {
+					tag += ` validate:"` + fk.tag + `"`
+				}
+				st := reflect.StructOf([]reflect.StructField{{Name: "F", Type: t, Tag: reflect.StructTag(tag)}})
+				if i > 0 && !steps[i-1].index && r.Intn(4) == 0 {
+					t = reflect.PtrTo(st)
+				} else {
+					t = st
+				}
 			}
 		}
 	}
-	for _, s := range steps {
-		names = append(names, s.key)
-	}
-	path := strings.Join(names, ".")
+	path := joinSteps(steps)
+	var known []string
+	allPaths(ft, "", &known)
+	sort.Slice(known, func(i, j int) bool {
+		return len(known[i]) > len(known[j]) || len(known[i]) == len(known[j]) && known[i] < known[j]
+	})
 
-	text := render(r, res, ft)
-	if why := prefilter(text, ft); why != "" {
-		res.Ev("prefilter_rejected_fault_document", 1)
-		reason, example, _ := strings.Cut(why, "|")
-		res.SetAdd("prefilter_reason", reason)
-		if example != "" {
-			res.SetAdd("prefilter_example", reason+": "+example)
-		}
-		if verbose {
-			fmt.Printf("fault document rejected by the prefilter (%s):\n%s\n", why, text)
-		}
-		return
-	}
 	shapeName := ""
 	for _, s := range steps {
 		if s.index {
@@ -1653,13 +1917,43 @@ func faultPhase(res *harness.R, r *rand.Rand, g *docGen, tree *model.Node, dir, 
 	}
 	res.SetAdd("fault_kind", fk.name)
 	res.SetAdd("fault_path_shape", shapeName)
-	res.Ev("fault_documents", 1)
 
-	cbs := []combo{combos[0], combos[r.Intn(len(combos))]}
-	for ci, cb := range cbs {
-		if cb.pathSep && g.hasDot || (ci == 1 && cb.name == "none") {
+	// one load without and one with PathSep (there the document is written with
+	// folded keys, preferably along the path)
+	plain := []combo{combos[0], combos[2]}
+	seps := []combo{combos[1], combos[3], combos[4]}
+	cbs := []combo{plain[r.Intn(len(plain))]}
+	if !g.hasDot {
+		cbs = append(cbs, seps[r.Intn(len(seps))])
+	}
+	for _, cb := range cbs {
+		doc := ft
+		foldedOnPath := false
+		if cb.pathSep {
+			fo := &folder{r: r, objOdds: 3, listOdds: 6}
+			doc = fo.fold(ft, steps, true)
+			foldedOnPath = fo.pathFolded > 0
+			if fo.folded > 0 {
+				res.Ev("fault_documents_with_folded_keys", 1)
+			}
+			if foldedOnPath {
+				res.Ev("fault_documents_folded_on_the_path", 1)
+			}
+		}
+		text := render(r, res, doc)
+		if why := prefilter(text, doc); why != "" {
+			res.Ev("prefilter_rejected_fault_document", 1)
+			reason, example, _ := strings.Cut(why, "|")
+			res.SetAdd("prefilter_reason", reason)
+			if example != "" {
+				res.SetAdd("prefilter_example", reason+": "+example)
+			}
+			if verbose {
+				fmt.Printf("fault document rejected by the prefilter (%s):\n%s\n", why, text)
+			}
 			continue
 		}
+		res.Ev("fault_documents", 1)
 		if cb.varExp {
 			// the fault document must stay inside the expansion model
 			vars := map[string]string{}
@@ -1672,7 +1966,15 @@ func faultPhase(res *harness.R, r *rand.Rand, g *docGen, tree *model.Node, dir, 
 				continue
 			}
 		}
-		ctx := fmt.Sprintf("fault=%s path=%q target=%v options=%s document=%q", fk.name, path, t, cb.name, clip(string(text)))
+		joined := fk.getter && cb.pathSep && !strings.Contains(shapeName, "i") && r.Intn(2) == 0
+		how := "Unpack"
+		if fk.getter {
+			how = "Child+String"
+			if joined {
+				how = "Child(dotted)+String"
+			}
+		}
+		ctx := fmt.Sprintf("fault=%s via %s path=%q target=%v options=%s document=%q", fk.name, how, path, t, cb.name, clip(string(text)))
 		if verbose {
 			fmt.Println("fault:", ctx)
 		}
@@ -1706,10 +2008,21 @@ func faultPhase(res *harness.R, r *rand.Rand, g *docGen, tree *model.Node, dir, 
 					continue
 				}
 				var uerr error
-				panicked, pv, where := harness.Safe(func() { uerr = c.Unpack(reflect.New(t).Interface(), cb.opts...) })
+				nav := false
+				panicked, pv, where := harness.Safe(func() {
+					if fk.getter {
+						uerr, nav = getterErr(c, steps, joined, cb.opts)
+					} else {
+						uerr = c.Unpack(reflect.New(t).Interface(), cb.opts...)
+					}
+				})
 				res.Eval(1)
 				if panicked {
-					res.Violate("panic:Unpack", "%s: panic %q at %s; %s", who, pv, where, ctx)
+					res.Violate("panic:"+how, "%s: panic %q at %s; %s", who, pv, where, ctx)
+					continue
+				}
+				if nav {
+					res.Inconc("%s: cannot walk to the object of the missing key: %v; %s", who, uerr, clip(ctx))
 					continue
 				}
 				if k == 0 {
@@ -1749,26 +2062,23 @@ func faultPhase(res *harness.R, r *rand.Rand, g *docGen, tree *model.Node, dir, 
 			res.Violate("frontends-disagree:fault-raised", "the fault is reported by %d of %d loads: %s; %s", raised, total, strings.Join(l, " | "), ctx)
 			continue
 		}
-		quoted := "'" + path + "'"
 		// input class of the fault for the signatures
-		class := "conversion"
-		switch {
-		case fk.name == "validate-required-null":
-			class = "required-null"
-		case fk.tag != "":
-			class = "validator"
-		}
+		class := fk.class
 		if len(steps) == 1 {
 			class += ":top-level-setting"
 		} else {
 			class += ":nested-setting"
 		}
+		if foldedOnPath {
+			class += ":dotted-key"
+		}
+		res.SetAdd("fault_class", class)
 		var lacking []int
 		nLoaded := 0
 		for i := range loaders {
 			if fileOut[i].loaded {
 				nLoaded++
-				if !strings.Contains(fileOut[i].err.Error(), files[i]) {
+				if !namesFile(fileOut[i].err.Error(), files[i]) {
 					lacking = append(lacking, i)
 				}
 			}
@@ -1782,41 +2092,36 @@ func faultPhase(res *harness.R, r *rand.Rand, g *docGen, tree *model.Node, dir, 
 				}
 				who = "all-loaders"
 			}
-			res.Violate("error-lacks-source:"+who+":"+class, "%s.NewConfigWithFile(%q): Unpack error %q does not mention the file (%d of %d loaders affected); %s",
+			res.Violate("error-lacks-source:"+who+":"+class, "%s.NewConfigWithFile(%q): error %q does not mention the file (%d of %d loaders affected); %s",
 				loaders[i].name, files[i], fileOut[i].err.Error(), len(lacking), nLoaded, ctx)
 		}
 		for i, l := range loaders {
 			if fileOut[i].loaded {
-				pathVerdict(res, l.name+"-withfile", fileOut[i].err.Error(), quoted, ctx)
+				pathVerdict(res, l.name+"-withfile", withoutFile(fileOut[i].err.Error(), files[i]), path, known, ctx)
 				res.Ev("source_checked", 1)
 			}
 			if memOut[i].loaded {
 				msg := memOut[i].err.Error()
-				if strings.Contains(msg, "(source:") || strings.Contains(msg, dir) {
-					res.Violate("memory-error-mentions-source:"+l.name, "%s.NewConfig: Unpack error %q names a source; %s", l.name, msg, ctx)
+				if namesFile(msg, files[i]) || strings.Contains(msg, dir) {
+					res.Violate("memory-error-mentions-source:"+l.name, "%s.NewConfig: error %q names the file although the bytes were passed in memory; %s", l.name, msg, ctx)
 				}
-				pathVerdict(res, l.name, msg, quoted, ctx)
+				pathVerdict(res, l.name, msg, path, known, ctx)
 			}
 		}
 	}
 }
 
-// pathVerdict classifies an error text that should name the quoted path.
-func pathVerdict(res *harness.R, who, msg, quoted, ctx string) {
-	if strings.Contains(msg, quoted) {
+// pathVerdict classifies an error text that should name the dotted path as a
+// delimited token, whatever the wording around it.
+func pathVerdict(res *harness.R, who, msg, path string, known []string, ctx string) {
+	if namesToken(msg, path) {
 		return
 	}
-	for _, marker := range []string{"accessing '", "in field '"} {
-		if i := strings.Index(msg, marker); i >= 0 {
-			rest := msg[i+len(marker):]
-			if j := strings.Index(rest, "' (source:"); j >= 0 {
-				rest = rest[:j]
-			} else if j := strings.LastIndex(rest, "'"); j >= 0 {
-				rest = rest[:j]
-			}
-			res.Violate("error-names-wrong-path:"+who, "Unpack error %q names '%s', the faulty setting is %s; %s", msg, rest, quoted, ctx)
+	for _, other := range known {
+		if other != path && namesToken(msg, other) {
+			res.Violate("error-names-wrong-path:"+who, "error %q names %q, the faulty setting is %q; %s", msg, other, path, ctx)
 			return
 		}
 	}
-	res.Violate("error-lacks-path:"+who, "Unpack error %q does not name the setting %s; %s", msg, quoted, ctx)
+	res.Violate("error-lacks-path:"+who, "error %q does not name the setting %q; %s", msg, path, ctx)
 }
